@@ -301,9 +301,10 @@ func cfgFor(rt_ *rapid.T) gen.TCfg {
 		MaxLoopDepth: rapid.SampledFrom([]int{2, 3}).Draw(rt_, "maxloops"),
 		Floats:       true, Containers: true, Errors: true, Closures: true, Recursion: true, PrintEvery: true,
 		UpperNames: true, ShadowNames: true, BoundaryInts: true, Variadics: true, IncrDecr: true,
-		FreshLoopVars:    pbt.KnownOpen("K-C05-1"),
-		NoLoopVarCapture: pbt.KnownOpen("K-C05-3"),
-		PureParamAssign:  pbt.KnownOpen("K-C05-2"),
+		FreshLoopVars:      pbt.KnownOpen("K-C05-1"),
+		NoLoopVarCapture:   pbt.KnownOpen("K-C05-3"),
+		PureParamAssign:    pbt.KnownOpen("K-C05-2"),
+		NoUpperInRecursion: pbt.KnownOpen("K-C04-1"),
 	}
 }
 
